@@ -2080,3 +2080,83 @@ def proxy_equivalence_ok(sub_msgs, to_sub, ctl_code, chunks) -> bool:
     except Exception:
         return False
     return True
+
+
+def group_terminate_ok(via_flags, timeout_given: bool) -> bool:
+    """Group.terminate's own loop with safe_terminate replaced by a recorder: every member exits exactly once,
+    members proxied through another gateway before that gateway (i.e. in an earlier round), each round hands exactly
+    the gateways that exited in it to safe_terminate (join+wait / kill pairs), the group is empty afterwards."""
+    import execnet.multi as multi
+    from execnet.multi import Group
+
+    class Io:
+        def __init__(self, name, log):
+            self.name, self.log = name, log
+
+        def wait(self):
+            self.log.append(("wait", self.name))
+
+        def kill(self):
+            self.log.append(("kill", self.name))
+
+    class Spec:
+        def __init__(self, via):
+            self.via = via
+
+    class GW:
+        def __init__(self, group, id, via, log):
+            self.id, self.spec, self._group, self.log = id, Spec(via), group, log
+            self._io = Io(id, log)
+
+        def exit(self):
+            self.log.append(("exit", self.id))
+            self._group._unregister(self)
+
+        def join(self, timeout=None):
+            self.log.append(("join", self.id))
+
+    log, rounds = [], []
+    g = Group()
+    names = ["m"] + [f"w{k}" for k in range(len(via_flags))]
+    g._gateways.append(GW(g, "m", None, log))
+    for k, v in enumerate(via_flags):
+        g._gateways.append(GW(g, f"w{k}", "m" if v else None, log))
+    saved = multi.safe_terminate
+
+    def recorder(execmodel, timeout, pairs):
+        ids = []
+        for term, kill in pairs:
+            n0 = len(log)
+            term()
+            kill()
+            got = log[n0:]
+            if len(got) != 3 or got[0][0] != "join" or got[1][0] != "wait" or got[2][0] != "kill" or not (got[0][1] == got[1][1] == got[2][1]):
+                raise AssertionError("pair does not join+wait / kill one and the same gateway")
+            ids.append(got[0][1])
+        rounds.append((timeout, ids))
+
+    multi.safe_terminate = recorder
+    try:
+        g.terminate(1.0 if timeout_given else None)
+    finally:
+        multi.safe_terminate = saved
+    if len(g) != 0 or g._gateways_to_join:
+        return False
+    exits = [x[1] for x in log if x[0] == "exit"]
+    if sorted(exits) != sorted(names):
+        return False
+    handed = [i for _, ids in rounds for i in ids]
+    if sorted(handed) != sorted(names):
+        return False                      # every member is joined/waited (and killable) exactly once
+    for t, _ in rounds:
+        if t != (1.0 if timeout_given else None):
+            return False
+    # proxied members leave in a round before their via gateway's round
+    round_of = {}
+    for r, (_, ids) in enumerate(rounds):
+        for i in ids:
+            round_of[i] = r
+    for k, v in enumerate(via_flags):
+        if v and not (round_of[f"w{k}"] < round_of["m"]):
+            return False
+    return True
